@@ -21,7 +21,7 @@ import estim_gen as G
 from common import ModelErr, b2f, f2b, fs2b
 
 PROP = "C17"
-CLAIMED = False
+CLAIMED = True
 ENGINE = "Estim"
 DESIGN_REF = "DESIGN.md §5.10"
 TECHNIQUE = (
